@@ -71,20 +71,25 @@ VtreeDtOK(e) ==
 (* --- vtree manager --- *)
 VtManOK(e) ==
   LET t == e.tree
-      n == NumNodes(t)
+      flat == Flatten(t)                 \* computed once per event (the operators of VTrees recompute it per call)
+      spans == SpanSeq(t, 0)
+      n == Len(flat)
       idx == e.idx
+      vix(v) == (CHOOSE i \in 1 .. n : flat[i] = <<"leaf", v>>) - 1
   IN /\ e.root = t
      /\ ToSet(idx) \subseteq 0 .. (n - 1)
      \* every index the manager hands out names the subtree at that in-order position
-     /\ \A i \in 1 .. Len(idx) : e.sub[i] = SubAt(t, idx[i])
-     /\ \A i \in 1 .. Len(e.varidx) : SubAt(t, e.varidx[i][2]) = <<"leaf", e.varidx[i][1]>>
+     /\ \A i \in 1 .. Len(idx) : e.sub[i] = flat[idx[i] + 1]
+     /\ \A i \in 1 .. Len(e.varidx) : flat[e.varidx[i][2] + 1] = <<"leaf", e.varidx[i][1]>>
      /\ \A i \in 1 .. Len(idx), j \in 1 .. Len(idx) :
-          /\ e.lca[i][j] = Lca(t, idx[i], idx[j])
+          /\ e.lca[i][j] = LcaS(spans, idx[i], idx[j])
           \* a is "prime" w.r.t. b iff it comes strictly earlier in the in-order traversal
           /\ e.prime[i][j] = (idx[i] < idx[j])
      /\ \A i \in 1 .. Len(e.labels), j \in 1 .. Len(e.labels) :
-          e.primevar[i][j] = (VarIndex(t, e.labels[i]) < VarIndex(t, e.labels[j]))
+          e.primevar[i][j] = (vix(e.labels[i]) < vix(e.labels[j]))
      /\ e.numvars = NumLeaves(t)
+     \* the one-pass tables are the tables of the definition (checked on small trees, where the cubic definition is cheap)
+     /\ (n <= 15 => \A a, b \in 0 .. (n - 1) : LcaS(spans, a, b) = Lca(t, a, b))
 
 EventOK(e) ==
   CASE e.ev = "order" -> OrderOK(e)
